@@ -149,6 +149,54 @@ func (s *byteSrc) u32(_ string) uint32 {
 	return uint32(s.next()) | uint32(s.next())<<8 | uint32(s.next())<<16 | uint32(s.next())<<24
 }
 
+// recSrc makes pseudo-random choices and records them in the byte format byteSrc decodes, so that a case found
+// by the structured generator can be handed to the native fuzzer as a seed input.
+type recSrc struct {
+	x   uint64
+	rec []byte
+}
+
+func (r *recSrc) rnd() uint64 {
+	r.x ^= r.x << 13
+	r.x ^= r.x >> 7
+	r.x ^= r.x << 17
+	return r.x
+}
+func (r *recSrc) pick(_ string, n int) int {
+	if n > 256 {
+		n = 256
+	}
+	v := int(r.rnd() % uint64(n))
+	r.rec = append(r.rec, byte(v))
+	return v
+}
+func (r *recSrc) mutate(_ string, pct int) bool {
+	if int(r.rnd()%100) < pct {
+		r.rec = append(r.rec, 99)
+		return true
+	}
+	r.rec = append(r.rec, 0)
+	return false
+}
+func (r *recSrc) bytes(_ string, max int) []byte {
+	n := int(r.rnd() % 24)
+	if n > max {
+		n = max
+	}
+	r.rec = append(r.rec, byte(n))
+	out := make([]byte, n)
+	for i := range out {
+		out[i] = byte(r.rnd())
+		r.rec = append(r.rec, out[i])
+	}
+	return out
+}
+func (r *recSrc) u32(_ string) uint32 {
+	v := uint32(r.rnd())
+	r.rec = append(r.rec, byte(v), byte(v>>8), byte(v>>16), byte(v>>24))
+	return v
+}
+
 // ---- protocol constants (from the protocol description) ----
 
 const (
@@ -443,14 +491,95 @@ func genID(s src, c *cmdInput, nprepared int) {
 	}
 }
 
-// dropSemis replaces the semicolons of a random text (except in 1 of 25 texts): a semicolon together with a
-// control byte is the shape of finding C38-F1, and every such input leaves a spinning goroutine in the proxy
-// under test for the rest of the run; the shape is kept in the search, but rare.
-func dropSemis(s src, b []byte) []byte {
-	if s.pick("keep_semis", 25) == 24 {
-		return b
+// Statement texts that END INSIDE a lexical construct: a scanner that stops advancing there spins forever.
+var openBases = []struct {
+	sql string
+	n   int // parameter markers
+}{
+	{"select 1 ", 0}, {"select ? , ? from t_ok where id = ? ", 3}, {"select * from tbl_s where id = ? and name = ", 1},
+	{"insert into tbl_s (id, name) values (?, ?) ", 2}, {"select * from tbl_s where id in (1, 2) ", 0}, {"", 0}, {"update t_ok set name = ? where id = 1 ", 1},
+}
+var openEndings = []string{"/* abc", "/*", "/* abc *", "'abc", "'", "'abc\\'", "\"abc", "\"", "`abc", "`", "\\", "abc\\", "/*! 40101 select 2", "/*!", "/*!50000",
+	"-- abc", "--", "-- ", "# abc", "#", "x'ab", "0x", "b'01", "@`a", "@'a", "N'abc", "_utf8'abc", "/", "-", "*/", "/*+ hint", "'a''", "\"a\"\"", "`a``", "1e", "1.", "$"}
+
+// genOpenEnded returns a statement text ending inside a comment, string, quoted identifier, escape or
+// version comment, optionally behind a complete first statement (multi-statement mode), and its marker count.
+func genOpenEnded(s src) ([]byte, int) {
+	b := openBases[s.pick("open_base", len(openBases))]
+	text, n := b.sql, b.n
+	switch s.pick("open_multi", 4) {
+	case 1:
+		text = "select 1; " + text
+	case 2:
+		text = "select ?; " + text
+		n++
 	}
-	return bytes.ReplaceAll(b, []byte(";"), []byte(":"))
+	text += openEndings[s.pick("open_end", len(openEndings))]
+	if s.pick("open_tail_semi", 6) == 5 {
+		text += ";"
+	}
+	return []byte(text), n
+}
+
+// registers says whether the proxy will accept a COM_STMT_PREPARE of this text and give it the next statement
+// id: its marker counter refuses a text in which a string or a quoted identifier is left open (comments are
+// skipped, a doubled or backslash-escaped quote does not close). Only used to keep the statement references
+// of the generated EXECUTE commands aligned; a wrong guess merely turns a reference into an unknown id.
+func registers(text []byte) bool {
+	n := len(text)
+	for i := 0; i < n; {
+		ch := text[i]
+		switch {
+		case ch == '\'' || ch == '"' || ch == '`':
+			closed := false
+			i++
+			for i < n {
+				if text[i] == '\\' && ch != '`' {
+					i += 2
+					continue
+				}
+				if text[i] == ch {
+					if i+1 < n && text[i+1] == ch {
+						i += 2
+						continue
+					}
+					closed = true
+					i++
+					break
+				}
+				i++
+			}
+			if !closed {
+				return false
+			}
+		case ch == '#', ch == '-' && i+1 < n && text[i+1] == '-' && (i+2 == n || text[i+2] <= ' '):
+			for i < n && text[i] != '\n' {
+				i++
+			}
+		case ch == '/' && i+1 < n && text[i+1] == '*' && !(i+2 < n && text[i+2] == '!'):
+			j := bytes.Index(text[i+2:], []byte("*/"))
+			if j < 0 {
+				return true
+			}
+			i += 2 + j + 2
+		default:
+			i++
+		}
+	}
+	return true
+}
+
+// genExecOf returns a well-formed COM_STMT_EXECUTE of the ref-th prepared statement with n parameters.
+func genExecOf(s src, ref, n int) cmdInput {
+	c := cmdInput{Cmd: comStmtExecute, Trunc: -1, IDMode: 0, StmtRef: ref, Iter: 1, BoundFlag: 1}
+	for i := 0; i < n; i++ {
+		if s.pick("exec_ptype", 2) == 0 {
+			c.Params = append(c.Params, paramInput{Type: 8, Val: []byte{byte(1 + i), 0, 0, 0, 0, 0, 0, 0}})
+		} else {
+			c.Params = append(c.Params, paramInput{Type: 253, Val: []byte{3, 'a', ';', '\''}})
+		}
+	}
+	return c
 }
 
 // genCmd appends one command; prepared holds the marker counts of the statements prepared so far in the case.
@@ -462,23 +591,35 @@ func genCmd(s src, prepared *[]int) cmdInput {
 	nparams := 0
 	switch c.Cmd {
 	case comQuery:
-		k := s.pick("query_text", len(queryTexts)+2)
-		if k < len(queryTexts) {
+		k := s.pick("query_text", len(queryTexts)+2+len(queryTexts)/4)
+		if k >= len(queryTexts)+2 {
+			c.Text, _ = genOpenEnded(s)
+			c.Mutated = true
+		} else if k < len(queryTexts) {
 			c.Text = []byte(queryTexts[k])
 		} else if k == len(queryTexts) {
-			c.Text = dropSemis(s, s.bytes("query_bytes", 60))
+			c.Text = s.bytes("query_bytes", 60)
 			c.Mutated = true
 		} else {
 			c.Text = append([]byte("select '"), long('x', 70000)...) // unterminated 70 KB literal
 			c.Mutated = true
 		}
 	case comStmtPrepare:
-		k := s.pick("prepare_text", len(prepareTexts)+1)
-		if k < len(prepareTexts) {
+		k := s.pick("prepare_text", len(prepareTexts)+1+len(prepareTexts)/2)
+		if k > len(prepareTexts) {
+			var n int
+			c.Text, n = genOpenEnded(s)
+			c.Mutated = true
+			if registers(c.Text) {
+				*prepared = append(*prepared, n)
+			}
+		} else if k < len(prepareTexts) {
 			c.Text = []byte(prepareTexts[k].sql)
-			*prepared = append(*prepared, prepareTexts[k].n)
+			if registers(c.Text) {
+				*prepared = append(*prepared, prepareTexts[k].n)
+			}
 		} else {
-			c.Text = dropSemis(s, s.bytes("prepare_bytes", 60))
+			c.Text = s.bytes("prepare_bytes", 60)
 			c.Mutated = true
 			n := 0
 			for _, b := range c.Text {
@@ -486,7 +627,9 @@ func genCmd(s src, prepared *[]int) cmdInput {
 					n++
 				}
 			}
-			*prepared = append(*prepared, n)
+			if registers(c.Text) {
+				*prepared = append(*prepared, n)
+			}
 		}
 	case comStmtExecute:
 		genID(s, &c, len(*prepared))
@@ -627,7 +770,14 @@ func genCase(s src, handshakePhase bool) c38Case {
 		ncmd = s.pick("ncmd_hs", 3)
 	}
 	for i := 0; i < ncmd; i++ {
-		c38.Cmds = append(c38.Cmds, genCmd(s, &prepared))
+		before := len(prepared)
+		cmd := genCmd(s, &prepared)
+		c38.Cmds = append(c38.Cmds, cmd)
+		// a statement prepared from a mutated text is usually executed right away (well-formed EXECUTE):
+		// the text reaches the query path of the proxy only then
+		if cmd.Cmd == comStmtPrepare && cmd.Mutated && cmd.Trunc < 0 && cmd.Frame.Mode == "" && len(prepared) == before+1 && len(c38.Cmds) < 6 && s.pick("exec_after_prepare", 3) != 2 {
+			c38.Cmds = append(c38.Cmds, genExecOf(s, before, prepared[before]))
+		}
 	}
 	if c38.Cmds == nil {
 		c38.Cmds = []cmdInput{}
